@@ -394,6 +394,8 @@ fn write_replay(root: &Path, prop: &str, tier: &str, seed: u64, v: &Violation) -
     body["observed"] = json!(v.fail.detail);
     body["tier"] = json!(tier);
     body["seed"] = json!(seed);
+    // the build profile the case failed under (the driver replays it with the same one)
+    if let Ok(p) = std::env::var("VERIF_PROFILE") { body["profile"] = json!(p) }
     let h = hash_of(&body.to_string());
     let p = dir.join(format!("{}-{}-{:016x}.json", prop, v.sub, h));
     let _ = std::fs::write(&p, serde_json::to_string_pretty(&body).unwrap());
@@ -567,7 +569,8 @@ pub fn run_property(subs: &[Sub], prop: &str, tier: &str, seed: u64, root: &Path
     if only.is_none() {
         let dir = root.join("evidence");
         let _ = std::fs::create_dir_all(&dir);
-        if let Err(e) = std::fs::write(dir.join(format!("{}.json", prop)), serde_json::to_string_pretty(&ev).unwrap()) {
+        let name = std::env::var("VERIF_EVIDENCE_NAME").unwrap_or_else(|_| prop.to_string());
+        if let Err(e) = std::fs::write(dir.join(format!("{}.json", name)), serde_json::to_string_pretty(&ev).unwrap()) {
             eprintln!("cannot write evidence: {}", e);
             return 2
         }
